@@ -88,7 +88,9 @@ def msg_id(data):
 # --------------------------------------------------------------------------
 
 FILL = {
-    'move-interp': {'before': ['label', 'addhdr', 'exec', 'flag'], 'after': ['label', 'addhdr', 'exec', 'flag']},
+    # a flag action AFTER the move absorbs it (matches_merge keeps the later entry, of type flag, whose path is not interpolated: the
+    # list then holds no over-long path at all, see design-notes/pkg-ce12.md); a flag action before it gives the move its subdirectory
+    'move-interp': {'before': ['label', 'addhdr', 'exec', 'flag'], 'after': ['label', 'addhdr', 'exec']},
     'isdir-interp': {'before': ['label', 'addhdr', 'exec', 'flag'], 'after': ['label', 'addhdr', 'exec', 'flag', 'movedst']},
     # a deep maildir / a long host name make EVERY renaming action fail: only commands may precede the first one
     'flag': {'before': ['exec'], 'after': ['label', 'addhdr', 'exec']},
@@ -487,7 +489,7 @@ def unit_sticky(rep, sc):
         cases.append(ec.Case(conf, [('^(.*)$', '')], b'To: u@example.com\nX-Tail: /' + cap.encode() + b'\n\nbody\n', 'new', '1.host', '0'))
         want.append((fails, total, None, 0, 1, False))
     ec.run_cases(h, env, cases, want_spec=False)
-    bad_spec, bad_model, stat = [], [], {'cases': len(cases), 'failing_entry': 0, 'failing_not_last': 0, 'fits': 0}
+    bad_spec, bad_model, stat = [], [], {'cases': len(cases), 'failing_entry': 0, 'failing_not_last': 0, 'fits': 0, 'model_compared': 0}
     for c, (fails, total, dest, pos, n, chained) in zip(cases, want):
         if c.note == 'fault':
             rep.finding('sanitizer-fault', dict(c.readable(), implementation=c.impl[:300], family='unit-sticky'))
